@@ -225,11 +225,29 @@ fn content_equal(source: &FileEntry, dest: &FileEntry) -> Result<bool> {
         return Ok(false);
     }
 
-    // For now, assume equal if sizes match
-    // In future: compare checksums if available
-    // This is conservative (may miss some conflicts) but safe
+    // Same size: compare the bytes. Entries that do not name readable files
+    // (metadata-only entries) keep the size-only answer.
+    Ok(same_bytes(&source.path, &dest.path).unwrap_or(true))
+}
 
-    Ok(true)
+/// Byte-wise comparison of two files
+fn same_bytes(a: &Path, b: &Path) -> std::io::Result<bool> {
+    use std::io::Read;
+
+    let mut a = std::io::BufReader::new(std::fs::File::open(a)?);
+    let mut b = std::io::BufReader::new(std::fs::File::open(b)?);
+    let mut buf_a = [0u8; 8192];
+    let mut buf_b = [0u8; 8192];
+
+    loop {
+        let n = a.read(&mut buf_a)?;
+        if n == 0 {
+            return Ok(b.read(&mut buf_b)? == 0);
+        }
+        if b.read_exact(&mut buf_b[..n]).is_err() || buf_a[..n] != buf_b[..n] {
+            return Ok(false);
+        }
+    }
 }
 
 #[cfg(test)]
